@@ -20,7 +20,7 @@ EXTENDS SplineMath, PPolyMath, SplineObj, Json, IOUtils
 Tr == ndJsonDeserialize(IOEnv.TRACE)
 JMin == "VJ_MIN" \in DOMAIN IOEnv /\ IOEnv.VJ_MIN = "1"
 JGrad == "VJ_GRAD" \in DOMAIN IOEnv /\ IOEnv.VJ_GRAD = "1"
-MaxUnk == 40        \* dense exact solves only up to this many unknowns
+MaxUnk == IF "VJ_MAXUNK" \in DOMAIN IOEnv THEN RToInt(IOEnv.VJ_MAXUNK) ELSE 40        \* dense exact solves only up to this many unknowns
 
 VARIABLES l,        \* next trace line
           bad,      \* deviations found so far
